@@ -11,6 +11,7 @@ from uberjob._util import Missing
 from uberjob._value_store import ValueStore
 
 from vlib import specs
+from uberjob.stores import LiteralSource as _LiteralSource
 from vlib.specs import EXC_TYPES, R, SideRead, Term, W
 
 EPOCH = dt.datetime(2001, 1, 1)
@@ -130,6 +131,26 @@ class LogicalStore(ValueStore):
         if style == "long":
             return f"LogicalStore('/data/{'p' * 30}/{self.idx}/{'q' * 70}/value.pkl')"
         return f"LogicalStore({self.idx})"
+
+
+class LiteralLogicalStore(_LiteralSource):
+    """A user subclass of the bundled LiteralSource with the same logging behaviour as LogicalStore (whatever uberjob
+    does for its own store classes, it is still a store: reads, writes and time queries are store accesses)."""
+
+    def __init__(self, world, idx, normalising=True):
+        _LiteralSource.__init__(self, Missing, None)
+        self.world = world
+        self.idx = idx
+        self.time = None
+        self.normalising = normalising
+
+    read = LogicalStore.read
+    write = LogicalStore.write
+    _set = LogicalStore._set
+    get_modified_time = LogicalStore.get_modified_time
+
+    def __repr__(self):
+        return f"LiteralLogicalStore({self.idx})"
 
 
 class FalsyLogicalStore(LogicalStore):
@@ -308,6 +329,8 @@ class World:
                 self.index_of.setdefault(n, i)
 
     def new_store(self, i):
+        if i < len(self.spec["nodes"]) and self.spec["nodes"][i].get("litsrc"):
+            return LiteralLogicalStore(self, i, self.normalising)
         if i < len(self.spec["nodes"]) and self.spec["nodes"][i].get("falsy"):
             return FalsyLogicalStore(self, i, self.normalising)
         return LogicalStore(self, i, self.normalising)
